@@ -1413,6 +1413,17 @@ const char* rtosc_skip_next_printed_arg(const char* src, int* skipped,
                 {
                     const char* next_ellipsis_from_llhssrc =
                             strstr(llhssrc, "...");
+                    // the "(...+0x1p-1s)" of a time tag is no range
+                    while(next_ellipsis_from_llhssrc < ellipsis)
+                    {
+                        const char* b = next_ellipsis_from_llhssrc;
+                        while(b > llhssrc && isspace(b[-1])) --b;
+                        if(b > llhssrc && b[-1] == '(')
+                            next_ellipsis_from_llhssrc =
+                                strstr(next_ellipsis_from_llhssrc + 3, "...");
+                        else
+                            break;
+                    }
                     if(next_ellipsis_from_llhssrc < ellipsis)
                     {
                         llhssrc = next_ellipsis_from_llhssrc + 2;
